@@ -733,6 +733,9 @@ pub fn scenarios(filter: &str, thorough: bool) -> Vec<ConnScenario> {
             // overlapping connections where the idle secondary goes first, then the busy primary
             v.push(sc("c07", 2, false, 8, vec![Connect, ConnectBack, OpenX, Wait(4), KillRemote]));
             v.push(sc("c07", 2, false, 8, vec![Connect, ConnectBack, OpenX, Wait(4), CutLink(0)]));
+            // two overlapping connections that both idle out (whichever goes first)
+            v.push(sc("c07", 2, false, 8, vec![Connect, ConnectBack, Wait(4)]));
+            v.push(sc("c07", 2, false, 10, vec![Connect, ConnectBack, OpenX, DropSubX(0), Wait(5)]));
             // idle expiry racing with inbound substreams of a non-keep-alive protocol (ping opens one per second)
             v.push(sc("c07", 4, true, 12, vec![Connect, Wait(5)]));
             v.push(sc("c07", 4, true, 12, vec![Connect, Wait(3), Wait(2)]));
@@ -907,6 +910,86 @@ fn frozen_remote_open_backlog_tcp(ctx: &mut Ctx) {
             }
         }
         Err(_) => ctx.machinery_error("TCP open-backlog scenario panicked"),
+    }
+}
+
+/// C08: a request to open a substream is answered exactly once — also when the answer is a failure and the protocol's
+/// event channel is full at that moment. X asks for three substreams whose opening is held back, stops polling, its
+/// channel is filled with dial-failure notifications, the three opens run into the open timeout; X resumes and must find
+/// the three `SubstreamOpenFailure` answers.
+fn open_failure_reaches_a_clogged_protocol(ctx: &mut Ctx) {
+    use crate::env::node::MonitorCmd;
+    let result = std::thread::spawn(|| -> Result<(usize, usize), Viol> {
+        let rt = crate::env::driver::runtime(5);
+        rt.block_on(async {
+            let scn = sc("c08", 100_000, false, 0, vec![]);
+            let mut w = World::new();
+            let st = scn.setup(&mut w);
+            let _ = w.nodes[st.l].cmd.send(NodeCmd::Dial(st.peer_r));
+            w.run_to_quiescence(100_000);
+            w.nodes[st.l].script.set_hold_opens(true);
+            for _ in 0..3 {
+                let _ = st.x.cmd.send(MonitorCmd::OpenSubstream(st.peer_r));
+            }
+            w.run_to_quiescence(100_000);
+            let asked: Vec<usize> = st.x.log.lock().iter().filter_map(|e| if let Seen::OpenSubstreamResult { result: Ok(id), .. } = e { Some(*id) } else { None }).collect();
+            if asked.len() != 3 {
+                return Err(Viol::new("machinery/clogged-open-failure-setup", format!("expected three accepted open requests, got {asked:?}")));
+            }
+            let _ = st.x.cmd.send(MonitorCmd::Pause);
+            w.run_to_quiescence(100_000);
+            let capacity = litep2p::verif::DEFAULT_CHANNEL_SIZE;
+            for i in 0..capacity {
+                let p = crate::util::peer(700_000 + i as u64);
+                let a: multiaddr::Multiaddr = format!("/ip4/10.202.{}.{}/tcp/1", i / 250, i % 250 + 1).parse().unwrap();
+                let _ = w.nodes[st.l].cmd.send(NodeCmd::DialAddress(a.with(multiaddr::Protocol::P2p(p.into()))));
+                w.run_to_quiescence(100_000);
+            }
+            // the held opens run into the substream-open timeout while X's channel is full
+            for _ in 0..7 {
+                tokio::time::advance(Duration::from_secs(1)).await;
+                w.run_to_quiescence(100_000);
+            }
+            let _ = st.x.cmd.send(MonitorCmd::Resume);
+            w.run_to_quiescence(2_000_000);
+            w.nodes[st.l].script.set_hold_opens(false);
+            w.run_to_quiescence(2_000_000);
+            let log = st.x.log.lock().clone();
+            let mut answers: BTreeMap<usize, usize> = BTreeMap::new();
+            for e in &log {
+                match e {
+                    Seen::SubstreamOpened { outbound: Some(id), .. } => *answers.entry(*id).or_default() += 1,
+                    Seen::SubstreamOpenFailure { substream } => *answers.entry(*substream).or_default() += 1,
+                    _ => {}
+                }
+            }
+            let closed = log.iter().any(|e| matches!(e, Seen::Closed { .. }));
+            let unanswered: Vec<usize> = asked.iter().copied().filter(|id| !answers.contains_key(id)).collect();
+            if !unanswered.is_empty() && !closed {
+                return Err(Viol::new(
+                    "c08/substream-never-answered/failure-while-event-channel-full",
+                    format!("three substream opens timed out while protocol X's event channel was full; after X resumed, requests {unanswered:?} have neither SubstreamOpened nor SubstreamOpenFailure and the connection is still up"),
+                ));
+            }
+            if answers.values().any(|n| *n > 1) {
+                return Err(Viol::new("c08/substream-answered-twice/failure-while-event-channel-full", format!("answers per request: {answers:?}")));
+            }
+            Ok((asked.len(), w.driver.steps as usize))
+        })
+    })
+    .join();
+    match result {
+        Ok(Ok((n, steps))) => {
+            ctx.sub("open_failure_reaches_a_clogged_protocol", serde_json::json!({"open_requests": n, "driver_steps": steps, "held": true}));
+            ctx.cov_add("traces_validated_against_impl", 1);
+        }
+        Ok(Err(v)) if v.signature.starts_with("machinery/") => ctx.machinery_error(format!("{}: {}", v.signature, v.what)),
+        Ok(Err(v)) => ctx.violation(crate::report::Violation {
+            signature: v.signature,
+            what: v.what,
+            replay: serde_json::json!({"engine": "scripted", "scenario": "backpressure_order_check"}),
+        }),
+        Err(_) => ctx.machinery_error("clogged-open-failure scenario panicked"),
     }
 }
 
@@ -1189,6 +1272,7 @@ pub fn run_filtered(ctx: &mut Ctx, filter: &'static str) {
     }
     if filter == "c08" {
         frozen_remote_open_backlog_tcp(ctx);
+        open_failure_reaches_a_clogged_protocol(ctx);
     }
     // ---- E4: the same programs on real TcpTransport / TcpConnection nodes over loopback sockets ----
     if filter == "c07" || filter == "c09" {
